@@ -6,8 +6,12 @@ import (
 	"fmt"
 	"math/rand/v2"
 	"net/http"
+	"runtime"
 	"strconv"
+	"strings"
+	"sync/atomic"
 	"testing"
+	"time"
 
 	"github.com/jub0bs/cors"
 )
@@ -39,6 +43,11 @@ type c11Case struct {
 	// same program with every value suffixed "-nested") through the same wrapped handler - the deterministic
 	// stand-in for a concurrent exchange (lesson of seeded change C11-h: response-header slices shared between exchanges)
 	Nested bool `json:"nested,omitempty"`
+	// Reenter: between its header operations and WriteHeader the handler calls one of the middleware's own methods
+	// ("setdebug": SetDebug(current mode); "config": Config(); "reconfigure-config": Reconfigure(Config()), the documented
+	// no-op) - an admin endpoint behind the middleware it administers; "Middleware are safe for concurrent use"
+	// (lesson of seeded change C11-i: a lock held while the wrapped handler runs)
+	Reenter string `json:"reenter,omitempty"`
 }
 
 type spyHandler struct {
@@ -138,8 +147,32 @@ func c11Run(r *Run, l *Local, cs c11Case, mw *cors.Middleware) {
 			}
 		}
 	}
+	reenterBlocked := ""
+	if cs.Reenter != "" && !cs.Nested && !reenterDisabled.Load() {
+		spy.nested = func() {
+			reenterBlocked = runGuarded(func() {
+				switch cs.Reenter {
+				case "setdebug":
+					mw.SetDebug(cs.Debug && cs.Spec != nil)
+				case "config":
+					mw.Config()
+				case "reconfigure-config":
+					mw.Reconfigure(mw.Config())
+				}
+			})
+		}
+	}
 	presetMW{cs.Preset, wrappedOnce(mw)}.ServeHTTP(w, req)
 	got := w.obs(spy.calls)
+	if reenterBlocked != "" {
+		reenterDisabled.Store(true) // one witness is enough: every further blocked call would cost the watchdog time
+	}
+	if reenterBlocked == "?" {
+		r.Inconclusive("a re-entrant call did not return within the watchdog time and its goroutine state could not be attributed to the middleware")
+	} else if reenterBlocked != "" {
+		r.Violate("reentrant-call-blocked", "reference-run", fmt.Sprintf("the wrapped handler called the middleware's own method (%s) and that call is blocked (%s) while the middleware waits for the handler to return: the response can never reach the client | request %s", cs.Reenter, reenterBlocked, reqString(q)), cs)
+		return
+	}
 	l.evals++
 	report := func(key, msg string) {
 		r.Violate(key, "reference-run", fmt.Sprintf("%s | request %s | real %s | reference %s | handler %+v | preset %+v", msg, reqString(q), got, ref, cs.Handler, cs.Preset), cs)
@@ -205,6 +238,45 @@ func c11Run(r *Run, l *Local, cs c11Case, mw *cors.Middleware) {
 	}
 }
 
+// runGuarded runs f on its own goroutine and waits for it. If f has not returned after a generous watchdog time
+// (f takes microseconds), the goroutine's scheduler state is inspected: a goroutine parked in a mutex/semaphore
+// acquisition with a frame of the library on its stack is blocked on a lock of the middleware - the verdict comes from
+// that state, not from the elapsed time. Returns "" (returned), a description of the blocked state, or "?" (unknown).
+var reenterDisabled atomic.Bool
+
+func runGuarded(f func()) string {
+	done := make(chan struct{})
+	go func() {
+		f()
+		close(done)
+	}()
+	select {
+	case <-done:
+		return ""
+	case <-time.After(8 * time.Second):
+	}
+	buf := make([]byte, 8<<20)
+	buf = buf[:runtime.Stack(buf, true)]
+	for _, g := range strings.Split(string(buf), "\n\n") {
+		if !strings.Contains(g, "runGuarded") || !strings.Contains(g, "github.com/jub0bs/cors.(*Middleware)") {
+			continue
+		}
+		head := g
+		if i := strings.IndexByte(g, '\n'); i >= 0 {
+			head = g[:i]
+		}
+		if strings.Contains(head, "Mutex") || strings.Contains(head, "semacquire") || strings.Contains(head, "sync.") {
+			return strings.TrimSuffix(strings.SplitN(head, "[", 2)[1], "]:")
+		}
+	}
+	select {
+	case <-done:
+		return ""
+	default:
+	}
+	return "?"
+}
+
 func equalHeaderMaps(a, b map[string][]string) bool {
 	if len(a) != len(b) {
 		return false
@@ -244,7 +316,7 @@ func randPreset(rng *rand.Rand) []hdrOp {
 func TestVerif_C11(t *testing.T) {
 	r := newRun(t, "C11")
 	r.Rule("configurations (C02 product slice, zero value, Reconfigure(nil) after a configuration) x debug x the preflight-predicate boundary: 10 method tokens x Origin in {absent, zero values, [\"\"], one value, two values} x ACRM likewise (exhaustive 250-cell grid per configuration) " +
-		"x inner handlers (status none/200/204/404/500/301, bodies, Set/Add/Del programs on Vary/ACAO/ACAC/ACEH/Content-Type/X-Custom/ACAM/ACMA/Set-Cookie before and after WriteHeader) x pre-set headers from an outer middleware; in a third of the cells the handler sends a nested request with differing values through the same middleware between its header operations and WriteHeader (two exchanges in flight at once). " +
+		"x inner handlers (status none/200/204/404/500/301, bodies, Set/Add/Del programs on Vary/ACAO/ACAC/ACEH/Content-Type/X-Custom/ACAM/ACMA/Set-Cookie before and after WriteHeader) x pre-set headers from an outer middleware; in a third of the cells the handler sends a nested request with differing values through the same middleware between its header operations and WriteHeader (two exchanges in flight at once), in a sixth it calls SetDebug(current mode) / Config() / Reconfigure(Config()) on the middleware that wraps it. " +
 		"evaluation = one exchange compared with a reference run of the same chain without the CORS middleware, plus identity/count spy; non-trivial = every cell (each exercises the predicate or the pass-through contract), distinct by hash of configuration, chain and request")
 	r.Assume("the reference run (same outer chain and handler, CORS middleware removed) defines the handler's own output")
 
@@ -361,6 +433,9 @@ func TestVerif_C11(t *testing.T) {
 						cs := c11Case{Spec: spec, Passthrough: pass, Debug: d == 1, Preset: preset, Handler: prog, Req: q, Nested: (oi+2*ai+pi)%3 == 0}
 						if cs.Nested {
 							l.counters["cells_with_nested_exchange"]++
+						} else if (oi+ai+2*pi)%5 == 0 {
+							cs.Reenter = []string{"setdebug", "config", "reconfigure-config"}[(oi+ai+pi)%3]
+							l.counters["cells_with_reentrant_call_"+cs.Reenter]++
 						}
 						c11Run(r, l, cs, mws[d])
 						l.NontrivialKey(key, strconv.Itoa(d), jsonStr(prog), jsonStr(preset), reqString(q))
